@@ -10,17 +10,28 @@ package main
 //   (hdr.ppd xH xLOC (xT ...)...)          macaroon.ParsePermissionAndDischargeTokens
 //   (hdr.ppd.flyio xH (xT ...)...)         flyio.ParsePermissionAndDischargeTokens
 //
-// Header strings are always valid UTF-8 (the model works on code points).  In split/ppd the pairs
+//   (const err:unrecognized) / (const strip-exact)   headers that are NOT valid UTF-8 (phase F): outside the modelled
+//                                      domain, the expected value is the name itself (model-independent oracle)
+//
+// Header strings of the hdr.* ops are always valid UTF-8 (the model works on code points).  In split/ppd the pairs
 // are the decode oracle handed to the model: for each token what macaroon.Decode says (its
 // location, or none) - the macaroon codec is not part of this property.
 //
 // Random token bytes never start with a msgpack array/map/ext header: hdr.toks feeds them to
 // macaroon.Decode, whose allocation behaviour on adversarial input is another property's business.
+// Value pools are deliberately wide (generator audit): tokens repeat inside a list (the same slice), look like header
+// syntax or white space, are all-zero / all-ff, reach a few kB (64 kB+ in the thorough tier), lists reach dozens of
+// tokens, scheme chains a dozen words, every IsSpace class and the neighbours of every IsSpace range occur, every
+// case variant and near miss of the four labels is swept, locations come in clusters of near misses (case, trailing
+// slash / space / NUL, path, query, port, scheme, Unicode normal forms, str8/str16 lengths) and tokens carry the
+// issuer's location in places the split must not read (key-id, third-party caveat).
 // Real tokens are minted with macaroon.New (nonce from crypto/rand: their 16 random bytes are the
 // only data here that does not derive from the seed; every op line is self-contained all the same).
 
 import (
+	"encoding/base32"
 	"encoding/base64"
+	"encoding/hex"
 	"errors"
 	"fmt"
 	"strings"
@@ -29,6 +40,7 @@ import (
 	"github.com/superfly/macaroon"
 	"github.com/superfly/macaroon/bundle"
 	"github.com/superfly/macaroon/flyio"
+	"github.com/superfly/macaroon/resset"
 )
 
 func init() { families["header"] = famHeader }
@@ -169,10 +181,17 @@ func implPPDResult(perm []byte, dis [][]byte, err error) string {
 
 // ---- generators ----
 
-var hdrSpaces = []string{" ", " ", " ", "\t", "\n", "\r", "\v", "\f", "\u0085", "\u00a0", "\u1680", "\u2003", "\u200a", "\u2028", "\u2029", "\u202f", "\u205f", "\u3000"}
+// every unicode.IsSpace code point class, both ends of the U+2000..U+200A range included
+var hdrSpaces = []string{" ", " ", " ", " ", "\t", "\n", "\r", "\v", "\f", "\u0085", "\u00a0", "\u1680", "\u2000", "\u2001", "\u2003", "\u2009", "\u200a", "\u2028", "\u2029", "\u202f", "\u205f", "\u3000"}
 
-// look like blanks but are not unicode.IsSpace
-var hdrNonSpaces = []string{"\u200b", "\u180e", "\ufeff", "\u2060", "\x00", "\x1f", "\u001c"}
+// look like blanks but are not unicode.IsSpace: zero-width and formatting characters, controls, and the
+// immediate neighbours of every range of the IsSpace table
+var hdrNonSpaces = []string{"\u200b", "\u180e", "\ufeff", "\u2060", "\x00", "\x1f", "\u001c",
+	"\x08", "\x0e", "\x7f", "\u0084", "\u0086", "\u009f", "\u00a1", "\u00ad", "\u167f", "\u1681", "\u1fff", "\u200c", "\u2027", "\u202a",
+	"\u202e", "\u2030", "\u205e", "\u2fff", "\u3001", "\u303f", "\ufffd"}
+
+// set by famHeader: the thorough tier draws from wider ranges (sizes, counts, chain lengths)
+var hdrThorough bool
 
 func (r *Rng) ws(max int) string {
 	var sb strings.Builder
@@ -209,7 +228,16 @@ func (r *Rng) gap() string {
 // decorate wraps body in leading/trailing white space and 0..maxWords scheme words
 func (r *Rng) decorate(o *Out, body string, maxWords int) string {
 	nw := r.Intn(maxWords + 1)
-	o.count(fmt.Sprintf("deco.words.%d", nw))
+	if maxWords > 0 && r.Chance(1, 25) {
+		// "repeated": a long chain of scheme words (StripAuthorizationScheme recurses once per word)
+		nw = 4 + r.Intn(9)
+		if hdrThorough && r.Chance(1, 4) {
+			nw = 13 + r.Intn(60)
+		}
+		o.count("deco.words.4+")
+	} else {
+		o.count(fmt.Sprintf("deco.words.%d", nw))
+	}
 	var sb strings.Builder
 	lead, trail := "", ""
 	if r.Chance(1, 3) {
@@ -249,15 +277,42 @@ func unsafeFirst(b byte) bool {
 	return (b >= 0x80 && b <= 0x9f) || (b >= 0xc7 && b <= 0xc9) || (b >= 0xd4 && b <= 0xd8) || (b >= 0xdc && b <= 0xdf)
 }
 
+// byte strings that look like header syntax or white space once decoded: the grammar must treat a payload as opaque
+var hdrSpecialToks = [][]byte{[]byte(" "), []byte("\n"), []byte("\r\n"), []byte("\t "), []byte("   "), {0}, {0, 0, 0}, {0xff}, {0xff, 0xff, 0xff},
+	{0xfb, 0xff, 0xbf}, {0xfb, 0xef, 0xbe}, []byte(","), []byte("_"), []byte("fm2_QQ=="), []byte("FlyV1 fm2_QQ=="), []byte("fo1_x"), []byte("fm2_QQ==,fm2_QUI="),
+	[]byte("="), []byte("===="), []byte("Bearer"), []byte("\u00a0"), []byte("\u2028x"), {0xa0}, {0xc0}, {0xc1}, {0x90 ^ 0xff}}
+
 func (r *Rng) token(o *Out) []byte {
+	if r.Chance(1, 12) {
+		o.count("tok.special")
+		return append([]byte(nil), pick(r, hdrSpecialToks)...)
+	}
 	var n int
-	switch r.Intn(4) {
-	case 0:
+	switch k := r.Intn(80); {
+	case k < 20:
 		n = 1 + r.Intn(6)
+	case k == 20:
+		// long payloads (a token with many caveats is a few kB); the thorough tier crosses 64 kB
+		n = 201 + r.Intn(4000)
+		if hdrThorough && r.Chance(1, 30) {
+			n = 60000 + r.Intn(12000)
+		}
 	default:
 		n = 1 + r.Intn(200)
 	}
 	b := r.Bytes(n)
+	switch r.Intn(30) {
+	case 0:
+		for i := range b {
+			b[i] = 0
+		}
+		o.count("tok.fill.zero")
+	case 1:
+		for i := range b {
+			b[i] = 0xff
+		}
+		o.count("tok.fill.ff")
+	}
 	for unsafeFirst(b[0]) {
 		b[0] = byte(r.U64())
 	}
@@ -267,18 +322,41 @@ func (r *Rng) token(o *Out) []byte {
 		o.count("tok.len.1-3")
 	case n <= 32:
 		o.count("tok.len.4-32")
-	default:
+	case n <= 200:
 		o.count("tok.len.33-200")
+	case n <= 4200:
+		o.count("tok.len.201-4200")
+	default:
+		o.count("tok.len.60000+")
 	}
 	return b
 }
 
 func (r *Rng) tokens(o *Out, max int) [][]byte {
 	n := 1 + r.Intn(max)
-	o.count(fmt.Sprintf("toks.n.%d", n))
+	if r.Chance(1, 30) {
+		// many tokens in one header
+		n = max + 1 + r.Intn(40)
+		if hdrThorough && r.Chance(1, 12) {
+			n = 50 + r.Intn(250)
+		}
+		o.count("toks.n.many")
+	} else {
+		o.count(fmt.Sprintf("toks.n.%d", n))
+	}
 	ts := make([][]byte, n)
+	dup := false
 	for i := range ts {
+		if i > 0 && r.Chance(1, 12) {
+			// the same token again (the very same slice): a header may repeat a token, order and multiplicity are kept
+			ts[i] = ts[r.Intn(i)]
+			dup = true
+			continue
+		}
 		ts[i] = r.token(o)
+	}
+	if dup {
+		o.count("toks.with-duplicate")
 	}
 	return ts
 }
@@ -291,13 +369,28 @@ func entryOf(label string, tok []byte) string {
 
 func (r *Rng) oauthEntry(o *Out) string {
 	o.count("entry.oauth")
-	switch r.Intn(4) {
+	k := r.Intn(11)
+	if k == 4 && r.Chance(2, 3) {
+		k = 10
+	}
+	switch k {
 	case 0:
 		return "fo1_"
 	case 1:
 		return "fo1_" + base64.RawURLEncoding.EncodeToString(r.Bytes(1+r.Intn(30)))
 	case 2:
 		return "fo1_not base64 at all!_" + pick(r, hdrNonSpaces)
+	case 3:
+		// an opaque body that looks like a macaroon entry, a label, a scheme, padding, or more separators
+		o.count("entry.oauth.lookalike")
+		return "fo1_" + pick(r, []string{"fm2_QQ==", "fm1r_", "fo1_", "_", "__", "fm2", "====", "=", "FlyV1", "Bearer x", " ", "x ", " x", "\n", "\u00e9\u4e16\u754c", "\U0001f511", "fm2_" + strings.Repeat("A", 3)})
+	case 4:
+		o.count("entry.oauth.long")
+		n := 300 + r.Intn(2000)
+		return "fo1_" + base64.RawURLEncoding.EncodeToString(r.Bytes(n))
+	case 5:
+		// a JWT-like body: three dot-separated base64url segments
+		return "fo1_" + base64.RawURLEncoding.EncodeToString(r.Bytes(12)) + "." + base64.RawURLEncoding.EncodeToString(r.Bytes(1+r.Intn(40))) + "." + base64.RawURLEncoding.EncodeToString(r.Bytes(32))
 	default:
 		return "fo1_" + base64.StdEncoding.EncodeToString(r.Bytes(r.Intn(20)))
 	}
@@ -334,7 +427,7 @@ func (r *Rng) corrupt(o *Out, toks [][]byte) (string, string) {
 	join := func() string { return strings.Join(es, ",") }
 	insertAt := func(s, ins string, pos int) string { return s[:pos] + ins + s[pos:] }
 	kind := ""
-	switch k := r.Intn(20); k {
+	switch k := r.Intn(29); k {
 	case 0:
 		kind = "unknown-label"
 		es[i] = pick(r, []string{"fm3", "fm1", "fm2x", "FM2", "fm1R", "Fm1a", "", "fo2", "fo1x", "fm", "fm22", "fm1ra", "xfm2", "fm1r\u212a", "\u017fm2"}) + "_" + b64
@@ -358,11 +451,11 @@ func (r *Rng) corrupt(o *Out, toks [][]byte) (string, string) {
 		es[i] = pick(r, []string{"_", "_" + b64, "__", "_fm2_" + b64})
 	case 4:
 		kind = "empty-payload"
-		es[i] = label + "_" + pick(r, []string{"", "\n", "\r\n", "\r\n\r\n"})
+		es[i] = label + "_" + pick(r, []string{"", "\n", "\r\n", "\r\n\r\n", "=", "==", "====", "\r", "\n=\n"})
 	case 5:
 		kind = "bad-alphabet"
 		pos := r.Intn(len(b64))
-		rep := pick(r, []string{"-", "_", "!", "*", ".", " ", "\t", "\u00e9", "\u00a0", "\x00", "~", "@"})
+		rep := pick(r, []string{"-", "_", "!", "*", ".", " ", "\t", "\u00e9", "\u00a0", "\x00", "~", "@", ";", "\u2028", "\uff21", "\U0001d400", "\\", "\""})
 		es[i] = label + "_" + b64[:pos] + rep + b64[pos+1:]
 	case 6:
 		kind = "pad-in-middle"
@@ -438,13 +531,116 @@ func (r *Rng) corrupt(o *Out, toks [][]byte) (string, string) {
 		for j := 0; j < n; j++ {
 			es = append(es, r.oauthEntry(o))
 		}
-	default:
+	case 19:
 		kind = "non-space-blank"
 		ns := pick(r, hdrNonSpaces)
 		if r.Bool() {
 			return ns + join(), kind
 		}
 		return join() + ns, kind
+	case 20:
+		// a known label in another letter case: labels are compared exactly (an upper-case OAuth label is
+		// not skipped either)
+		kind = "label-case"
+		if r.Chance(1, 3) {
+			kind = "label-case-oauth"
+			l := "fo1"
+			for l == "fo1" {
+				l = r.randCase("fo1")
+			}
+			pos := r.Intn(len(es) + 1)
+			es = append(es[:pos], append([]string{l + "_" + pick(r, []string{"", "x", b64})}, es[pos:]...)...)
+		} else {
+			l := label
+			for l == label {
+				l = r.randCase(label)
+			}
+			es[i] = l + "_" + b64
+		}
+	case 21:
+		// the payload in another text encoding of the same bytes
+		kind = "other-encoding"
+		raw, _ := base64.StdEncoding.DecodeString(b64)
+		switch r.Intn(5) {
+		case 0:
+			es[i] = label + "_" + base64.URLEncoding.EncodeToString(raw)
+		case 1:
+			es[i] = label + "_" + base64.RawURLEncoding.EncodeToString(raw)
+		case 2:
+			es[i] = label + "_" + base64.RawStdEncoding.EncodeToString(raw)
+		case 3:
+			es[i] = label + "_" + hex.EncodeToString(raw)
+		default:
+			es[i] = label + "_" + base32.StdEncoding.EncodeToString(raw)
+		}
+	case 22:
+		// white space other than CR/LF (or a blank that is no white space) inserted into the payload, its two ends included
+		kind = "space-in-payload"
+		sp := pick(r, []string{" ", " ", "\t", "\v", "\f", "\u00a0", "\u0085", "\u2003", "\u3000", "\u200b", "\x00"})
+		es[i] = label + "_" + insertAt(b64, sp, pick(r, []int{0, len(b64), r.Intn(len(b64) + 1)}))
+	case 23:
+		kind = "blank-element"
+		pos := r.Intn(len(es) + 1)
+		es = append(es[:pos], append([]string{pick(r, []string{" ", "  ", "\t", "\n", "\r\n", "\u00a0", "\u3000", "\u200b"})}, es[pos:]...)...)
+	case 24:
+		// something else than a comma between the entries
+		kind = "wrong-delimiter"
+		if len(es) == 1 {
+			es = append(es, entryOf(pick(r, macLabels), r.token(o)))
+		}
+		return strings.Join(es, pick(r, []string{";", " ", "  ", "\n", "\r\n", "\t", "|", ",,", ";,", "\uff0c", "\u060c", "&", "_", ""})), kind
+	case 25:
+		// a scheme word somewhere else than in front
+		kind = "scheme-inside"
+		w := pick(r, []string{"FlyV1", "Bearer", "flyv1", "BEARER"})
+		switch r.Intn(5) {
+		case 0:
+			if len(es) == 1 {
+				es = append(es, entryOf(pick(r, macLabels), r.token(o)))
+			}
+			j := 1 + r.Intn(len(es)-1)
+			es[j] = w + r.gap() + es[j]
+		case 1:
+			return join() + " " + w, kind
+		case 2:
+			return w + join(), kind // glued to the first entry
+		case 3:
+			return w + pick(r, []string{",", ":", "=", "_", "\t", "\u00a0", ", "}) + join(), kind
+		default:
+			return w + " " + join() + "," + w + " " + join(), kind // two complete headers joined with a comma
+		}
+	case 26:
+		// scheme words and white space, no entry at all
+		kind = "scheme-only"
+		var sb strings.Builder
+		sb.WriteString(r.ws(2))
+		for n := r.Intn(4); n > 0; n-- {
+			sb.WriteString(r.randCase(pick(r, []string{"FlyV1", "Bearer"})))
+			sb.WriteString(r.gap())
+		}
+		if r.Bool() {
+			sb.WriteString(r.randCase(pick(r, []string{"FlyV1", "Bearer"})))
+		}
+		sb.WriteString(r.ws(2))
+		return sb.String(), kind
+	case 27:
+		// the separator of one entry replaced by a look-alike, or the label written with look-alike characters
+		kind = "lookalike"
+		switch r.Intn(3) {
+		case 0:
+			es[i] = label + pick(r, []string{"\uff3f", "\u2017", "\u005f\u0332", "-", "\u203f"}) + b64
+		case 1:
+			es[i] = strings.NewReplacer("f", "\uff46", "m", "\uff4d", "1", "\uff11", "2", "\uff12").Replace(label) + "_" + b64
+		default:
+			es[i] = label + pick(r, []string{"\u200b", "\u0301", "\x00", "\ufeff"}) + "_" + b64
+		}
+	default:
+		// two entries damaged at once, in two different ways (the tokeniser types each entry on its own)
+		kind = "two-at-once"
+		es[i] = pick(r, []string{"fm3", "FM2", "", "fm"}) + "_" + b64
+		j := r.Intn(len(es) + 1)
+		extra := pick(r, []string{"fm2_", "fm2_!!!!", "fm1r", "", "fm1a_QQ=", " fm2_QQ==", "fm2_QQ== "})
+		es = append(es[:j], append([]string{extra}, es[j:]...)...)
 	}
 	return join(), kind
 }
@@ -455,7 +651,15 @@ func (r *Rng) schemeSoup(o *Out) string {
 		"Bearer\t", "\tFlyV1", "Bearer,", "FlyV1,", "fm2_QQ==", "fm2_QQ==,fm1r_QUI=", "fo1_x", "x", "",
 		"Bea\u212aer", "\u017fearer", "\uff26lyV1", "FlyV\u0661", "FlyV1\u200b", "Bearer\u00a0", "\u00a0Bearer", "Bearer\u3000FlyV1", "\u0130", "bEARER", "fLYv1"}
 	n := r.Intn(6)
-	o.count(fmt.Sprintf("soup.words.%d", n))
+	if r.Chance(1, 15) {
+		n = 6 + r.Intn(10)
+		if hdrThorough && r.Chance(1, 3) {
+			n = 16 + r.Intn(50)
+		}
+		o.count("soup.words.6+")
+	} else {
+		o.count(fmt.Sprintf("soup.words.%d", n))
+	}
 	var sb strings.Builder
 	sb.WriteString(r.ws(2))
 	for i := 0; i < n; i++ {
@@ -479,42 +683,111 @@ func (r *Rng) schemeSoup(o *Out) string {
 }
 
 type realTok struct {
-	loc string
-	tok []byte
+	loc  string
+	tok  []byte
+	kind string
 }
 
-func mintPool() []realTok {
-	locs := []string{"https://perm.example", "https://tp.example", flyio.LocationPermission, flyio.LocationAuthentication, "", "root", "https://perm.example/"}
+// Locations in clusters of near misses of one another: a permission token is one whose location is EXACTLY
+// the issuer's, byte for byte.  Index 0 of a cluster is the base location.
+var hdrLocClusters = [][]string{
+	{"https://perm.example", "https://perm.example/", "HTTPS://PERM.EXAMPLE", "https://Perm.Example", "https://perm.example ", " https://perm.example",
+		"https://perm.example\n", "https://perm.example/v1", "https://perm.example?x=1", "https://perm.example#f", "https://perm.example:443", "https://perm.example.",
+		"http://perm.example", "perm.example", "https://perm.example\x00", "https://perm.example\xff", "https://user@perm.example", "https://perm.exampl",
+		"https://perm.example,https://tp.example", "https://perm.example%2F", "https://p\u00e9rm.example", "https://pe\u0301rm.example"},
+	{flyio.LocationPermission, flyio.LocationPermission + "/", strings.ToUpper(flyio.LocationPermission), strings.TrimSuffix(flyio.LocationPermission, "/v1"),
+		strings.Replace(flyio.LocationPermission, "https://", "http://", 1), flyio.LocationPermission + " ", flyio.LocationPermission + "/../v1",
+		strings.Replace(flyio.LocationPermission, "api.fly.io", "API.fly.io", 1), flyio.LocationAuthentication, flyio.LocationAuthentication + "/",
+		strings.TrimSuffix(flyio.LocationPermission, "1") + "2", flyio.LocationPermission + "?"},
+	{"https://tp.example", "https://tp.example/", "", "root", "Root", " ", "\x00", "/", "https://" + strings.Repeat("a", 22) + ".example", // 38 bytes: msgpack str8
+		"https://" + strings.Repeat("a", 22) + ".examplE", "https://" + strings.Repeat("long.", 60) + "example", // 315 bytes: msgpack str16
+		"https://" + strings.Repeat("long.", 60) + "examplf"},
+}
+
+func mintPool(o *Out) ([]realTok, [][]realTok) {
 	var pool []realTok
-	for i, loc := range locs {
-		for j := 0; j < 3; j++ {
-			m, err := macaroon.New([]byte(fmt.Sprintf("kid-%d-%d", i, j)), loc, macaroon.NewSigningKey())
-			if err != nil {
-				panic(err)
-			}
-			tok, err := m.Encode()
-			if err != nil {
-				panic(err)
-			}
-			pool = append(pool, realTok{loc, tok})
+	byCluster := make([][]realTok, len(hdrLocClusters))
+	n := 0
+	add := func(ci int, loc, kind string, m *macaroon.Macaroon, err error) {
+		if err != nil {
+			panic(err)
 		}
-		// a finalised PROOF token at the same location (a discharge of a third-party caveat that names this very
-		// location): permission and discharge tokens are told apart by location alone, whatever the nonce says
-		ka := macaroon.NewEncryptionKey()
-		if c3, err := macaroon.NewCaveat3P(ka, loc); err == nil {
-			if _, d, err := macaroon.DischargeTicket(ka, loc, c3.Ticket); err == nil {
-				if tok, err := d.Encode(); err == nil {
-					pool = append(pool, realTok{loc, tok})
+		tok, err := m.Encode()
+		if err != nil {
+			panic(err)
+		}
+		if dm, err := macaroon.Decode(tok); err != nil || dm.Location != loc {
+			panic(fmt.Sprintf("harness: minted token of kind %s at %q does not decode back to its location", kind, loc))
+		}
+		o.count("mint." + kind)
+		rt := realTok{loc, tok, kind}
+		pool = append(pool, rt)
+		byCluster[ci] = append(byCluster[ci], rt)
+	}
+	for ci, cl := range hdrLocClusters {
+		for li, loc := range cl {
+			n++
+			for j := 0; j < 2; j++ {
+				m, err := macaroon.New([]byte(fmt.Sprintf("kid-%d-%d", n, j)), loc, macaroon.NewSigningKey())
+				add(ci, loc, "plain", m, err)
+			}
+			// a finalised PROOF token at the same location (a discharge of a third-party caveat that names this very
+			// location): permission and discharge tokens are told apart by location alone, whatever the nonce says
+			ka := macaroon.NewEncryptionKey()
+			c3, err := macaroon.NewCaveat3P(ka, loc)
+			if err != nil {
+				panic(err)
+			}
+			_, d, err := macaroon.DischargeTicket(ka, loc, c3.Ticket)
+			add(ci, loc, "proof", d, err)
+
+			// Decoys: the OTHER places of a token where a location (or something like one) is written.  other = a
+			// different location of the same cluster (for the base: its first near miss; for a near miss: the base).
+			other := cl[0]
+			if li == 0 {
+				other = cl[1]
+			}
+			// key-id = the bytes of the other location
+			m, err := macaroon.New([]byte(other), loc, macaroon.NewSigningKey())
+			add(ci, loc, "decoy.kid-is-other-location", m, err)
+			// a third-party caveat that names the other location; plus ordinary attenuation
+			m, err = macaroon.New([]byte(fmt.Sprintf("kid-%d-3p", n)), loc, macaroon.NewSigningKey())
+			if err == nil {
+				err = m.Add(&macaroon.ValidityWindow{NotBefore: 1, NotAfter: 1 << 40}, &flyio.Organization{ID: 7, Mask: resset.ActionAll})
+			}
+			if err == nil {
+				err = m.Add3P(macaroon.NewEncryptionKey(), other, &flyio.Apps{Apps: resset.ResourceSet[uint64, resset.Action]{1: resset.ActionRead}})
+			}
+			add(ci, loc, "decoy.3p-names-other-location", m, err)
+			if li <= 1 {
+				// the discharge of a third-party caveat of a token at `other`, issued at `loc`, and bound to its parent
+				pm, err := macaroon.New([]byte("parent"), other, macaroon.NewSigningKey())
+				if err != nil {
+					panic(err)
 				}
+				ka := macaroon.NewEncryptionKey()
+				if err := pm.Add3P(ka, loc); err != nil {
+					panic(err)
+				}
+				ticket, err := pm.ThirdPartyTicket(loc)
+				if err != nil {
+					panic(err)
+				}
+				_, d, err := macaroon.DischargeTicket(ka, loc, ticket)
+				if err == nil {
+					err = d.BindToParentMacaroon(pm)
+				}
+				add(ci, loc, "proof.bound", d, err)
 			}
 		}
 	}
-	return pool
+	return pool, byCluster
 }
 
-// byte strings macaroon.Decode refuses, cheaply (they fail at the first msgpack byte or inside the nonce)
+// byte strings macaroon.Decode refuses (or, for the last kinds, may accept: the oracle decides), cheaply: they
+// fail at the first msgpack byte or inside the nonce
 func (r *Rng) undecodable(o *Out, pool []realTok) []byte {
-	switch r.Intn(5) {
+	switch r.Intn(10) {
 	case 0:
 		o.count("split.tok.undecodable.c1")
 		return append([]byte{0xc1}, r.Bytes(r.Intn(40))...)
@@ -530,6 +803,31 @@ func (r *Rng) undecodable(o *Out, pool []realTok) []byte {
 		t := append([]byte(nil), pick(r, pool).tok...)
 		t[0] = 0xc1
 		return t
+	case 4:
+		o.count("split.tok.undecodable.empty")
+		if r.Bool() {
+			return nil
+		}
+		return []byte{}
+	case 5:
+		// the location itself, as text
+		o.count("split.tok.undecodable.location-text")
+		return []byte(pick(r, pool).loc)
+	case 6:
+		// a real token still in its header clothing
+		o.count("split.tok.undecodable.still-encoded")
+		t := pick(r, pool).tok
+		if r.Bool() {
+			return []byte(base64.StdEncoding.EncodeToString(t))
+		}
+		return []byte(macaroon.ToAuthorizationHeader(t))
+	case 7:
+		o.count("split.tok.cut-or-extended")
+		t := pick(r, pool).tok
+		if r.Bool() {
+			return append([]byte(nil), t[:len(t)-1-r.Intn(3)]...)
+		}
+		return append(append([]byte(nil), t...), pick(r, [][]byte{{0}, {0xc0}, {0x20}, {0x90}})...)
 	default:
 		o.count("split.tok.undecodable.random")
 		b := r.Bytes(1 + r.Intn(60))
@@ -540,19 +838,40 @@ func (r *Rng) undecodable(o *Out, pool []realTok) []byte {
 	}
 }
 
-// a token list for the location split: real tokens of several locations, relocated copies, garbage
-func (r *Rng) splitTokens(o *Out, pool []realTok) [][]byte {
+// a token list for the location split: real tokens of several locations (mostly of one cluster of near-miss
+// locations), relocated copies, garbage
+func (r *Rng) splitTokens(o *Out, all []realTok, byCluster [][]realTok) [][]byte {
 	n := r.Intn(7)
-	if r.Chance(1, 10) {
+	switch {
+	case r.Chance(1, 10):
 		n = 0
+	case r.Chance(1, 20):
+		n = 7 + r.Intn(24)
 	}
-	o.count(fmt.Sprintf("split.n.%d", n))
+	if n <= 6 {
+		o.count(fmt.Sprintf("split.n.%d", n))
+	} else {
+		o.count("split.n.7+")
+	}
+	pool := all
+	if r.Chance(3, 4) {
+		ci := pick(r, []int{0, 0, 0, 1, 1, 1, 2, 2})
+		pool = byCluster[ci]
+		o.count(fmt.Sprintf("split.pool.cluster-%d", ci))
+	} else {
+		o.count("split.pool.all")
+	}
 	var ts [][]byte
 	for i := 0; i < n; i++ {
 		switch k := r.Intn(10); {
 		case k < 6:
-			o.count("split.tok.real")
-			ts = append(ts, pick(r, pool).tok)
+			rt := pick(r, pool)
+			if r.Chance(1, 3) {
+				// the cluster's base location: the one most calls below ask for
+				rt = pick(r, pool[:5])
+			}
+			o.count("split.tok.real." + rt.kind)
+			ts = append(ts, rt.tok)
 		case k < 7:
 			// change one byte of the location string inside a real token: still decodes, elsewhere
 			rt := pick(r, pool)
@@ -582,7 +901,7 @@ func (r *Rng) splitTokens(o *Out, pool []realTok) [][]byte {
 					o.count("split.tok.relocated.caseall")
 				}
 			} else {
-				o.count("split.tok.real")
+				o.count("split.tok.real." + rt.kind)
 			}
 			ts = append(ts, t)
 		case k < 8 && len(ts) > 0:
@@ -595,9 +914,37 @@ func (r *Rng) splitTokens(o *Out, pool []realTok) [][]byte {
 	return ts
 }
 
+// every spelling of a known label in another letter case, and near misses of the labels
+func hdrLabelSweep() []string {
+	var out []string
+	for _, l := range []string{"fm1r", "fm1a", "fm2", "fo1"} {
+		var letters []int
+		for i := 0; i < len(l); i++ {
+			if l[i] >= 'a' && l[i] <= 'z' {
+				letters = append(letters, i)
+			}
+		}
+		for mask := 1; mask < 1<<len(letters); mask++ {
+			b := []byte(l)
+			for j, pos := range letters {
+				if mask&(1<<j) != 0 {
+					b[pos] -= 32
+				}
+			}
+			out = append(out, string(b))
+		}
+	}
+	return append(out, "", "f", "fm", "fm1", "fo", "fm2x", "fm1rx", "fm1ax", "fo1x", "fm1ra", "fm1ar", "fm21", "fm12", "fo11", "fo2", "fo0", "fm3", "fm0", "fm1b", "fm1q", "fm1s",
+		"fm2r", "fm2a", "xfm2", "xfo1", "m2", "o1", "fm-2", "fm.2", "fm1-r", "fl1r", "fn2", "em2", "gm2", "fm2\x00", "\x00fm2", "fm2\u200b", "\ufefffm2", "fm1r\u212a", "\u017fm2",
+		"\uff46m2", "fm\uff12", "f\u043c2", "fo\u0661", "FlyV1", "Bearer", "bearer", "Basic", "fm2,", "fm2=", "fm2:", "fm1r/fm1a", "fm1r+fm1a", "macaroon", "oauth", "fm2 fm2", "1", "2")
+}
+
+var hdrInvalidUTF8 = []string{"\xff", "\x80", "\xbf", "\xc0\xaf", "\xc1\xbf", "\xed\xa0\x80", "\xf4\x90\x80\x80", "\xe2\x82", "\xf0\x9f\x94", "\xc2", "\xfe\xff", "\xf8\x88\x80\x80\x80"}
+
 func famHeader(r *Rng, o *Out, tier string) {
 	scale := 1
-	if tier == "thorough" {
+	hdrThorough = tier == "thorough"
+	if hdrThorough {
 		scale = 20
 	}
 	resStat := func(kind, res string) {
@@ -618,7 +965,22 @@ func famHeader(r *Rng, o *Out, tier string) {
 		resStat(kind, res)
 		o.emit("(hdr.parse "+hs(h)+")", res)
 	}
-	toksOp := func(h string) { o.emit("(hdr.toks "+hs(h)+")", implToks(o, h)) }
+	toksOp0 := func(h string) { o.emit("(hdr.toks "+hs(h)+")", implToks(o, h)) }
+	toksOp := func(h string) {
+		toksOp0(h)
+		if r.Chance(1, 10) {
+			// what the bundle prints is a header again: parse it a second time (both parsers)
+			h2 := guard(func() string {
+				b, _ := bundle.ParseBundleWithFilter("https://perm.example", h, bundle.KeepAll)
+				return b.Header()
+			})
+			if utf8.ValidString(h2) && !strings.HasPrefix(h2, "panic") {
+				o.count("reparse")
+				parseOp("reparse", h2)
+				toksOp0(h2)
+			}
+		}
+	}
 	stripOp := func(h string) {
 		res := implStrip(h)
 		if strings.HasSuffix(res, "true") {
@@ -634,9 +996,19 @@ func famHeader(r *Rng, o *Out, tier string) {
 		"fo1_,fo1_", "FlyV1 fo1_abc", "fm2_QQ==", "fm2_QR==", "fm2_QQ", "fm2_QQ=", "fm2_QQ===", "fm2_Q", "fm2_=", "fm2_====", "FlyV1\tfm2_QQ==", "FlyV1\t fm2_QQ==",
 		"FlyV1 \tfm2_QQ==", "FlyV1\u00a0fm2_QQ==", "flyv1 bearer FLYV1 fm2_QQ==", "fm2_QQ== FlyV1", "fm2_QQ== ", "fm2_QQ==\n", "fm2_Q\nQ=\r=", "fm2_QQ==,", ",fm2_QQ==",
 		"fm2_QQ==, fm2_QQ==", "fm1r_QQ==,fm1a_QUI=,fm2_QUJD,fo1_zzz", "fm2_fm2_QQ==", "Bearer fm2_QQ==,Bearer fm2_QQ==", "FlyV1 fm2_QQ==,FlyV1", "\u212a fm2_QQ==",
-		"FlyV1 fm2_QUJD QUJD", "fm2_QUJD QUJD", "fm2 _QQ==", "FlyV1 fm2 _QQ=="} {
+		"FlyV1 fm2_QUJD QUJD", "fm2_QUJD QUJD", "fm2 _QQ==", "FlyV1 fm2 _QQ==",
+		// added by the generator audit
+		"FlyV1  ", "  FlyV1  fm2_QQ==  ", "FLYV1 fm2_QQ==", "Authorization: FlyV1 fm2_QQ==", "FlyV1: fm2_QQ==", "FlyV1,fm2_QQ==", "FlyV1fm2_QQ==", "FlyV1 FlyV1", "Bearer Bearer Bearer",
+		"fm2_QQ==;fm2_QQ==", "fm2_QQ==,,fm2_QQ==", "fm2_QQ== ,fm2_QQ==", "fm2_QQ==\n,fm2_QQ==", "FO1_x,fm2_QQ==", "fm2_QQ==,FO1_x", "Fo1_,fm2_QQ==", "fo1_x", "fo1", "fo1,fm2_QQ==", "FM2_QQ==",
+		"fm2_IA==", "fm2_Cg==", "fm2_AA==", "fm2_DQo=", "fm2_QQ==\r\n", "fm2_QQ\r\n==", "\r\nfm2_QQ==", "fm2_\r\nQQ==", "fm2\n_QQ==", "fm2_QUJD,fm2_QUJD", "fm2_QUJD,fm1r_QUJD,fm1a_QUJD",
+		"fm2__QQ==", "fm2_QQ==_", "fm2_QQ==_x", "fm2_-_8=", "fm2_+/8=", "fm2_+/8", "fm2_-_8", "fm2_QQ==QQ==", "fm2_QUJDQQ==", "fm2_QQ==QUJD", "fm2_QUJD====", "fm2_Q=Q=", "fm2_=QQ=",
+		"fm2_QQ= =", "fm2_QQ=\n=", "fm2_QUI", "fm2_QUI==", "fm2_QUJ=", "fm2_QUL=", "fm2_QV==", "fm2_Qf==", "fm2_Q/==", "fm2_//==", "fm2_////", "fm2_++++", "fm2_AAAA", "fm2_A", "fm2_AA", "fm2_AAA",
+		"fm2_AAAAA", "fo1_fm2_QQ==", "fo1_fm2_QQ==,fm2_QUI=", "fo1_a b,fm2_QQ==", "FlyV1 fo1_a b,fm2_QQ==", "fo1_ ,fm2_QQ==", "fm2_QQ==,fo1_ ", "Bearer fo1_Bearer x,fm2_QQ==", "fo1_Bearer fm2_QQ==",
+		"Bearer\u2003 fm2_QQ==", "Bearer \u2003fm2_QQ==", "Bearer\u2003fm2_QQ==", "\u2003Bearer fm2_QQ==\u2003", "\u200bBearer fm2_QQ==", "Bearer \u200bfm2_QQ==", "Bearer fm2_QQ==\u200b",
+		"\ufeffFlyV1 fm2_QQ==", "FlyV1 \ufefffm2_QQ==", "FlyV1 fm2_QQ==\x00", "\x00", "\x00FlyV1 fm2_QQ==", "FlyV1\x00fm2_QQ==", "\"FlyV1 fm2_QQ==\"", "FlyV1 \"fm2_QQ==\"", "FlyV1=fm2_QQ==",
+		"Basic fm2_QQ==", "Token fm2_QQ==", "FlyV2 fm2_QQ==", "Bearer FlyV2 fm2_QQ==", "FlyV1 Basic fm2_QQ==", "Bearer  Bearer", "Bearer fm2_QQ== Bearer", "FlyV1 fm2_QQ==, FlyV1 fm2_QUI="} {
 		parseOp("edge", h)
-		toksOp(h)
+		toksOp0(h)
 		stripOp(h)
 	}
 	o.emit("(hdr.format)", implFormat(nil))
@@ -667,6 +1039,28 @@ func famHeader(r *Rng, o *Out, tier string) {
 		toksOp(h)
 	}
 
+	// A2. lists with empty (nil and zero-length) tokens among the others: they format, and do not parse back
+	for i := 0; i < 40*scale; i++ {
+		toks := r.tokens(o, 4)
+		for n := 1 + r.Intn(2); n > 0; n-- {
+			pos := r.Intn(len(toks) + 1)
+			var e []byte
+			if r.Bool() {
+				e = []byte{}
+			}
+			toks = append(toks[:pos], append([][]byte{e}, toks[pos:]...)...)
+		}
+		o.count("format.with-empty-token")
+		hxs := make([]string, len(toks))
+		for j, t := range toks {
+			hxs[j] = hx(t)
+		}
+		o.emit("(hdr.format "+strings.Join(hxs, " ")+")", implFormat(toks))
+		h := r.decorate(o, macaroon.ToAuthorizationHeader(toks...), 1)
+		parseOp("with-empty", h)
+		toksOp0(h)
+	}
+
 	// B. label choices, OAuth entries
 	for i := 0; i < 600*scale; i++ {
 		toks := r.tokens(o, 6)
@@ -675,8 +1069,26 @@ func famHeader(r *Rng, o *Out, tier string) {
 		toksOp(h)
 	}
 
+	// B2. label sweep: every case variant and near miss of the four labels, alone / in front of / behind a valid entry
+	for _, l := range hdrLabelSweep() {
+		e := l + "_" + base64.StdEncoding.EncodeToString(r.token(o))
+		good := entryOf(pick(r, macLabels), r.token(o))
+		for k, body := range []string{e, e + "," + good, good + "," + e} {
+			if k > 0 && hdrThorough == false && r.Bool() {
+				continue
+			}
+			o.count("labelsweep")
+			h := body
+			if r.Chance(1, 3) {
+				h = r.decorate(o, body, 2)
+			}
+			parseOp("labelsweep", h)
+			toksOp0(h)
+		}
+	}
+
 	// C. corruptions
-	for i := 0; i < 1300*scale; i++ {
+	for i := 0; i < 1700*scale; i++ {
 		toks := r.tokens(o, 4)
 		body, kind := r.corrupt(o, toks)
 		o.count("corrupt." + kind)
@@ -700,22 +1112,53 @@ func famHeader(r *Rng, o *Out, tier string) {
 		stripOp(h)
 		if r.Chance(1, 3) {
 			parseOp("soup", h)
-			toksOp(h)
+			toksOp0(h)
 		}
 	}
 
 	// E. location split
-	pool := mintPool()
-	locs := []string{"https://perm.example", "https://tp.example", flyio.LocationPermission, flyio.LocationAuthentication, "", "root", "https://perm.example/", "https://nobody.example", "https://perm.exampld"}
-	for i := 0; i < 450*scale; i++ {
-		toks := r.splitTokens(o, pool)
+	pool, byCluster := mintPool(o)
+	var locs []string
+	for _, cl := range hdrLocClusters {
+		locs = append(locs, cl...)
+	}
+	locs = append(locs, "https://nobody.example", "https://perm.exampld")
+	for i := 0; i < 500*scale; i++ {
+		toks := r.splitTokens(o, pool, byCluster)
 		loc := pick(r, locs)
-		if len(toks) > 0 && r.Chance(3, 5) {
-			// the location of one of the listed tokens, when it has one
+		locKind := "pool"
+		if len(toks) > 0 && r.Chance(7, 10) {
+			// the location of one of the listed tokens, when it has one - or a near miss of it
 			if m, err := macaroon.Decode(pick(r, toks)); err == nil {
 				loc = m.Location
+				locKind = "of-a-listed-token"
+				if r.Chance(1, 5) {
+					switch r.Intn(6) {
+					case 0:
+						loc = r.randCase(loc)
+						locKind = "listed.case"
+					case 1:
+						loc += pick(r, []string{"/", " ", "\n", "\x00", "?", "#", "."})
+						locKind = "listed.suffixed"
+					case 2:
+						if len(loc) > 0 {
+							loc = loc[:len(loc)-1]
+						}
+						locKind = "listed.shortened"
+					case 3:
+						loc = " " + loc
+						locKind = "listed.prefixed"
+					case 4:
+						loc = strings.ToUpper(loc)
+						locKind = "listed.upper"
+					default:
+						loc = strings.TrimRight(loc, "/ \n")
+						locKind = "listed.trimmed"
+					}
+				}
 			}
 		}
+		o.count("split.loc." + locKind)
 		res := guard(func() string {
 			pm, pt, dm, dt, err := macaroon.FindPermissionAndDischargeTokens(toks, loc)
 			if err != nil {
@@ -727,6 +1170,14 @@ func famHeader(r *Rng, o *Out, tier string) {
 			for j := range pm {
 				if pm[j].Location != loc {
 					return "permission-macaroon-elsewhere"
+				}
+				if enc, err := pm[j].Encode(); err == nil && string(enc) != string(pt[j]) {
+					o.count("split.parallel.reencode-differs")
+				}
+			}
+			for j := range dm {
+				if dm[j].Location == loc {
+					return "discharge-macaroon-at-the-issuer"
 				}
 			}
 			return "perm:" + joinHx(pt) + " dis:" + joinHx(dt)
@@ -775,6 +1226,50 @@ func famHeader(r *Rng, o *Out, tier string) {
 		res = guard(func() string { return implPPDResult(flyio.ParsePermissionAndDischargeTokens(h)) })
 		resStat("ppd.flyio", res)
 		o.emit("(hdr.ppd.flyio "+hs(h)+pairs+")", res)
-		toksOp(h) // real tokens through the bundle tokeniser
+		toksOp0(h) // real tokens through the bundle tokeniser
+	}
+
+	// F. Headers that are NOT valid UTF-8.  They are outside the modelled domain (the model works on code points);
+	// what must happen does not need the model: an ill-formed byte sequence is no white space, no letter of a scheme,
+	// no label, no base64 - wherever it is put into a header without OAuth entries (whose bodies are opaque), Parse
+	// rejects with the unrecognized-token error; and in front of or behind an otherwise space-free body it stays
+	// part of what StripAuthorizationScheme returns.  Model-independent oracle lines.
+	for i := 0; i < 150*scale; i++ {
+		toks := r.tokens(o, 3)
+		body := strings.Join(r.labelledEntries(o, toks, 0), ",")
+		h := r.decorate(o, body, 2)
+		bad := pick(r, hdrInvalidUTF8)
+		var bounds []int
+		for j := range h {
+			bounds = append(bounds, j)
+		}
+		bounds = append(bounds, len(h))
+		pos := pick(r, bounds)
+		hb := h[:pos] + bad + h[pos:]
+		if utf8.ValidString(hb) {
+			panic("harness: the ill-formed sequence became well-formed")
+		}
+		o.count("invalid-utf8.parse")
+		res := implParse(hb)
+		resStat("invalid-utf8", res)
+		o.emit("(const err:unrecognized)", res)
+
+		// strip: decoration around a body that starts or ends with the ill-formed bytes
+		sb := body
+		if r.Bool() {
+			sb = bad + body
+		} else {
+			sb = body + bad
+		}
+		nwBefore := o.stats["deco.words.0"]
+		hs2 := r.decorate(o, sb, 3)
+		words0 := o.stats["deco.words.0"] != nwBefore
+		want := fmt.Sprintf("%s %v", hs(sb), !words0)
+		o.count("invalid-utf8.strip")
+		if got := implStrip(hs2); got == want {
+			o.emit("(const strip-exact)", "strip-exact")
+		} else {
+			o.emit("(const strip-exact)", "strip-differs:"+hs(hs2)+":"+got)
+		}
 	}
 }
